@@ -78,7 +78,7 @@ class _Shim:
 
 # ------------------------------------------------------------------ generators
 SCALED_BASES = ['simple', 'contract', 'storage', 'storage2', 'transport', 'ext_transport', 'multi', 'orderbook',
-                'orderbook', 'plant_lp', 'plant_mip', 'storage_mip']
+                'orderbook', 'plant_lp', 'plant_mip', 'storage_mip', 'structured', 'structured']
 
 
 def _markets(rnd, g, prices, T, node_names, prob=1.0, cap=40.0):
@@ -126,6 +126,21 @@ def gen_base(rnd, g, prices, T, kind, name, node_names):
         a = gen.gen_plant(rnd, g, prices, T, name, [node], chp=False, allow_mip=True)
         a['args'].setdefault('min_cap', 0.5)
         return a
+    if kind == 'structured':
+        # a wrapped sub-portfolio: a source / storage at an INTERNAL node behind a transport to the external node
+        ni = name + '_i1'
+        inner = [gen.gen_transport(rnd, g, prices, T, name + '_tr', ni, node)]
+        inner[0]['args'].pop('costs_time_series', None)
+        ik = rnd.choice(['simple', 'simple', 'storage', 'contract'])
+        if ik == 'simple':
+            inner.append(gen.gen_simple_contract(rnd, g, prices, T, name + '_c', ni))
+        elif ik == 'contract':
+            inner.append(gen.gen_contract(rnd, g, prices, T, name + '_c', ni))
+        else:
+            inner.append(gen.gen_storage(rnd, g, prices, T, name + '_s', [ni], False, False))
+        if rnd.random() < 0.4:
+            inner.append(gen.gen_simple_contract(rnd, g, prices, T, name + '_d', node))
+        return {'type': 'StructuredAsset', 'name': name, 'nodes': [node], 'inner': inner, 'args': {}, 'inner_nodes': [ni]}
     return gen.gen_simple_contract(rnd, g, prices, T, name, node)
 
 
@@ -139,7 +154,8 @@ def gen_scaled_case(rnd, tmax=10, kinds=None, exact=True):
     assets = _markets(rnd, g, prices, T, node_names)
     kind = rnd.choice(kinds or SCALED_BASES)
     base = gen_base(rnd, g, prices, T, kind, 'sca_b', node_names)
-    if base['type'] != 'OrderBook':
+    extra_nodes = list(base.get('inner_nodes', []))
+    if base['type'] not in ('OrderBook', 'StructuredAsset'):
         if rnd.random() < 0.4:
             gen.put_window(base['args'], gen.window(rnd, g))
         if rnd.random() < 0.1:
@@ -164,7 +180,7 @@ def gen_scaled_case(rnd, tmax=10, kinds=None, exact=True):
     assets.insert(pos, sc)
     if rnd.random() < 0.3:
         assets.append(gen.gen_simple_contract(rnd, g, prices, T, 'extra', rnd.choice(node_names)))
-    s = {'grid': g, 'nodes': node_names, 'prices': prices, 'assets': assets}
+    s = {'grid': g, 'nodes': node_names + extra_nodes, 'prices': prices, 'assets': assets}
     return {'kind': 'scaled', 'scn': s, 'target': sc['name'], 'base_kind': kind}
 
 
@@ -450,6 +466,12 @@ def scaled_spec(base, k, prices, newprices):
     b = copy.deepcopy(base)
     if t == 'OrderBook':
         b['args']['orders']['capa'] = [float(c) * k for c in b['args']['orders']['capa']]
+        return b
+    if t == 'StructuredAsset':
+        inner = [scaled_spec(x, k, prices, newprices) for x in b['inner']]
+        if any(x is None for x in inner):
+            return None
+        b['inner'] = inner
         return b
     if t not in CAP_ARGS:
         return None
